@@ -320,6 +320,83 @@ def run_history(case):
     return Outcome(None, len(fortran) >= 2 and repeats >= 1, ["kinds_%d" % len(kinds), "repeats" if repeats else "norepeat"])
 
 
+# ------------------------------------------------------------------------------------------
+# b2. several illumination channels against the independent reference, channel by channel
+# ------------------------------------------------------------------------------------------
+def strat_multi(tier):
+    ch = st.fixed_dictionaries({"wl": gen.rounded(0.4, 0.9, 4), "pol": gen.polarization(True), "alpha": gen.rounded(0.3, 1.2, 3)})
+    return st.fixed_dictionaries({
+        "nm": st.sampled_from([1.0, 1.33, 1.5]), "x": gen.size_param(0.3, 12.0), "m": gen.rel_index(None, 1.05, 2.0),
+        "ch": st.lists(ch, min_size=2, max_size=3, unique_by=lambda c: c["wl"]),
+        "labels": st.sampled_from([["red", "green", "blue"], ["green", "red", "blue"], ["b", "a", "c"], [2, 0, 1]]),
+        # wavelength, polarization and scaling are each keyed in an order of their own
+        "perms": st.lists(st.permutations([0, 1, 2]), min_size=3, max_size=3),
+        "forms": st.lists(st.sampled_from(["dict", "dataarray"]), min_size=3, max_size=3),
+        "shape": st.tuples(st.integers(1, 5), st.integers(1, 5)).map(list), "spacing": gen.rounded(0.05, 0.3, 3),
+        "c": st.tuples(gen.rounded(-0.5, 1.0, 3), gen.rounded(-0.5, 1.0, 3), gen.rounded(4.0, 20.0, 2)).map(list),
+        "what": st.sampled_from(["holo", "holo", "field", "intensity"]),
+    })
+
+
+def run_multi(case):
+    import xarray as xr
+    import holopy as hp
+    from holopy.scattering import calc_holo, calc_field, calc_intensity, Sphere, Mie
+    nch = len(case["ch"])
+    labs = case["labels"][:nch]
+    nm = case["nm"]
+    k0 = 2 * math.pi * nm / case["ch"][0]["wl"]
+    r = case["x"] / k0
+    n = (complex(*case["m"]) if case["m"][1] else case["m"][0]) * nm
+    sph = Sphere(n=n, r=r, center=tuple(case["c"]))
+    d = hp.detector_grid(tuple(case["shape"]), case["spacing"], extra_dims={"illumination": labs})
+
+    def keyed(j, per_label, vector=False):
+        order = [labs[i] for i in case["perms"][j] if i < nch]
+        if case["forms"][j] == "dict":
+            return {l: per_label[l] for l in order}
+        if vector:
+            return xr.DataArray(np.array([list(per_label[l]) + [0.0] for l in order], dtype=float), dims=["illumination", "vector"],
+                                coords={"illumination": order, "vector": ["x", "y", "z"]})
+        return xr.DataArray([per_label[l] for l in order], dims="illumination", coords={"illumination": order})
+    wl = keyed(0, {l: c["wl"] for l, c in zip(labs, case["ch"])})
+    pol = keyed(1, {l: tuple(c["pol"]) for l, c in zip(labs, case["ch"])}, vector=True)
+    alpha = {l: c["alpha"] for l, c in zip(labs, case["ch"])}
+    what = case["what"]
+    labels = [what, "channels_%d" % nch, "wl_" + case["forms"][0], "pol_" + case["forms"][1],
+              "orders_differ" if [i for i in case["perms"][0] if i < nch] != [i for i in case["perms"][1] if i < nch] else "orders_same"]
+    th = Mie()
+    if what == "holo":
+        res = calc_holo(d, sph, nm, wl, pol, theory=th, scaling=keyed(2, alpha))
+    elif what == "field":
+        res = calc_field(d, sph, nm, wl, pol, theory=th)
+    else:
+        res = calc_intensity(d, sph, nm, wl, pol, theory=th)
+    if "illumination" not in res.dims or sorted(map(str, res.illumination.values)) != sorted(map(str, labs)):
+        return Outcome(failure("multi_channel_labels", "result channels %r, expected %r" % (list(res.coords.get("illumination", xr.DataArray([])).values), labs)), True, labels)
+    X, Y = np.meshgrid(d.x.values, d.y.values, indexing="ij")
+    pts = np.stack([X.ravel(), Y.ravel(), np.zeros(X.size)], axis=1)
+    worst = 0.0
+    for l, c in zip(labs, case["ch"]):
+        E = refmie.holopy_field(n, r, case["c"], pts, nm, c["wl"], c["pol"], full_radial=True, radial_component=True)
+        nrm = math.hypot(*c["pol"]); ux, uy = c["pol"][0] / nrm, c["pol"][1] / nrm
+        got = res.sel(illumination=l)
+        if what == "field":
+            g = np.stack([got.sel(vector=v).transpose("x", "y", "z").values.ravel() for v in ("x", "y", "z")], axis=1)
+            err = np.abs(g - E).max(); scale = np.abs(E).max()
+        else:
+            g = got.transpose("x", "y", "z").values.ravel()
+            a = c["alpha"]
+            want = (np.abs(a * E[:, 0] + ux) ** 2 + np.abs(a * E[:, 1] + uy) ** 2) if what == "holo" else (np.abs(E[:, :2]) ** 2).sum(1)   # detected intensity: the transverse components
+            err = np.abs(g - want).max(); scale = max(np.abs(want).max(), 1e-300) if what == "intensity" else 1.0 + np.abs(E).max()
+        worst = max(worst, err / scale)
+        if not (err <= 3e-6 * scale * TOLX):
+            return Outcome(failure("multi_channel_vs_independent_reference", "channel %r of the multi-channel %s differs from the textbook value for that channel's "
+                                   "wavelength/polarization/scaling by %.3g (rel); wavelengths keyed %r, polarizations keyed %r"
+                                   % (l, what, err / scale, [labs[i] for i in case["perms"][0] if i < nch], [labs[i] for i in case["perms"][1] if i < nch]), what=what), True, labels)
+    return Outcome(None, True, labels, metrics={"multi_channel_" + what: worst})
+
+
 SUBCHECKS = [
     Sub("identity_shape_metadata", strat_identity, run_identity, 2400, 40000,
         "scatterer kind x theory (Mie 4 option sets, layered, Mie superposition, Multisphere meth 0/1, Tmatrix spheroid/"
@@ -332,6 +409,11 @@ SUBCHECKS = [
         "independent textbook near field summed over members; tolerance as C02 (roundoff + 3x truncation uncertainty) "
         "propagated through |aE+u|^2",
         tolerances={"field": "1e-6*|E|max + 1e-7*series magnitude (+3x truncation uncertainty)"}),
+    Sub("multi_channel_reference", strat_multi, run_multi, 1200, 20000,
+        "one sphere (x in [0.3,12]) under 2-3 illumination channels with per-channel wavelength, polarization (any norm) and scaling, "
+        "given as dictionaries or labelled arrays each keyed in an order of its own (labels incl. integers and non-colour names): "
+        "every channel of calc_holo/calc_field/calc_intensity equals the textbook Mie value for that channel's own optics",
+        tolerances={"rel": 3e-6}),
     Sub("history_independence", strat_history, run_history, 320, 4800,
         "pool of 2-10 generated calculations over all theories, where a calculation may be accompanied by a sibling that differs only in the theory options (Multisphere tolerances/solver/radial, Mie radial/asymptotic, lens angle) or in the polarization; a generated sequence of 4-14 (thorough 30) calls "
         "(holo/field/intensity, with repeats) in one process; every result must equal, bit for bit, its first "
